@@ -666,6 +666,9 @@ type c19RspExpect struct {
 	withoutCL []c19Field
 	clClass   string      // c19CLClass of the handler-set Content-Length, "" if none
 	trailer   http.Header // nil: no trailer section
+	// further field lists the statement leaves to the writer (part writer-response-ops: the states
+	// the handler's header map went through after the final WriteHeader and before the handler ended)
+	alts [][]c19Field
 }
 
 func c19SectionOf(status int, fs []c19Field, h http.Header) c19RspExpect {
@@ -738,30 +741,54 @@ func (m c19RspMsg) script(h http.Header, writeHeader func(int), write func([]byt
 	return valid
 }
 
+// c19RspDeclaredTrailers: the names the handler's header map announces as trailers (the ones that
+// may be sent as trailers).
+func c19RspDeclaredTrailers(h http.Header) map[string]bool {
+	d := map[string]bool{}
+	for _, v := range h["Trailer"] {
+		for _, k := range strings.Split(v, ",") {
+			k = http.CanonicalHeaderKey(strings.TrimSpace(k))
+			if c19TrailerNameOK(k) {
+				d[k] = true
+			}
+		}
+	}
+	return d
+}
+
+// c19RspHeaderFields: the field section a header map stands for, with the given status.
+func c19RspHeaderFields(h http.Header, status int) []c19Field {
+	d := c19RspDeclaredTrailers(h)
+	fs := []c19Field{{":status", strconv.Itoa(status)}}
+	return append(fs, c19WireFields(h, func(k string) bool { return d[k] || strings.HasPrefix(k, http.TrailerPrefix) })...)
+}
+
+// c19RspTrailerOf: the trailer section a header map stands for when the handler is done (nil: none).
+func c19RspTrailerOf(h http.Header) http.Header {
+	tr := http.Header{}
+	for k := range c19RspDeclaredTrailers(h) {
+		if vv := h[k]; len(vv) > 0 {
+			tr[k] = vv
+		}
+	}
+	for k, vv := range h {
+		if strings.HasPrefix(k, http.TrailerPrefix) && len(vv) > 0 {
+			tr[strings.TrimPrefix(k, http.TrailerPrefix)] = vv
+		}
+	}
+	if len(tr) == 0 {
+		return nil
+	}
+	return tr
+}
+
 // the model: which field sections the response consists of
 func (m c19RspMsg) expect() (sections []c19RspExpect, body string) {
 	h := http.Header{}
-	declared := func() map[string]bool {
-		d := map[string]bool{}
-		for _, v := range h["Trailer"] {
-			for _, k := range strings.Split(v, ",") {
-				k = http.CanonicalHeaderKey(strings.TrimSpace(k))
-				if c19TrailerNameOK(k) {
-					d[k] = true
-				}
-			}
-		}
-		return d
-	}
-	headerFields := func(status int) []c19Field {
-		d := declared()
-		fs := []c19Field{{":status", strconv.Itoa(status)}}
-		return append(fs, c19WireFields(h, func(k string) bool { return d[k] || strings.HasPrefix(k, http.TrailerPrefix) })...)
-	}
 	var early *c19RspExpect
 	m.script(h, func(status int) {
 		if status < 200 {
-			sec := c19SectionOf(status, headerFields(status), h) // 1xx sections are sent at once (RFC 9110, 15.2)
+			sec := c19SectionOf(status, c19RspHeaderFields(h, status), h) // 1xx sections are sent at once (RFC 9110, 15.2)
 			early = &sec
 		}
 	}, func(b []byte) {
@@ -773,21 +800,8 @@ func (m c19RspMsg) expect() (sections []c19RspExpect, body string) {
 		sections = append(sections, *early)
 	}
 	// the final section is serialised when the handler is done (nothing is flushed before)
-	final := c19SectionOf(m.Status, headerFields(m.Status), h)
-	tr := http.Header{}
-	for k := range declared() {
-		if vv := h[k]; len(vv) > 0 {
-			tr[k] = vv
-		}
-	}
-	for k, vv := range h {
-		if strings.HasPrefix(k, http.TrailerPrefix) && len(vv) > 0 {
-			tr[strings.TrimPrefix(k, http.TrailerPrefix)] = vv
-		}
-	}
-	if len(tr) > 0 {
-		final.trailer = tr
-	}
+	final := c19SectionOf(m.Status, c19RspHeaderFields(h, m.Status), h)
+	final.trailer = c19RspTrailerOf(h)
 	return append(sections, final), body
 }
 
@@ -806,14 +820,29 @@ func c19RunRspMsg(m c19RspMsg) (outcome string, fail *explore.Fail) {
 	valid := m.script(rw.Header(), rw.WriteHeader, func(b []byte) { rw.Write(b) })
 	rw.Flush()
 	rw.flushTrailers()
+	sections, wantBody := m.expect()
+	return c19JudgeRspWire("writer-response", "", append([]byte(nil), fake.out.Bytes()...), valid, sections, wantBody)
+}
+
+func c19ShortData(b []byte) string {
+	if len(b) > 64 {
+		return fmt.Sprintf("%q... (%d bytes)", b[:16], len(b))
+	}
+	return fmt.Sprintf("%q", b)
+}
+
+// c19JudgeRspWire is the oracle of the response writer: `wire` is everything the writer put on the
+// stream of one response. It is read back by the real client path (RequestStream.ReadResponse per
+// section, then the body Read up to the end of the stream, which runs decodeTrailers) and compared
+// with the field sections, the body and the trailers the message has. pfx names the part
+// ("writer-response", "writer-response-ops"), at is appended to every key.
+func c19JudgeRspWire(pfx, at string, wire []byte, valid bool, sections []c19RspExpect, wantBody string) (outcome string, fail *explore.Fail) {
 	class := "valid message"
 	if !valid {
 		class = "invalid message"
 	}
 	// the client side
-	wire := append([]byte(nil), fake.out.Bytes()...)
 	rs, cfake, rsp := c19ClientStream(wire, c19WriterLimit, c19WriterLimit)
-	sections, wantBody := m.expect()
 	emittedAll := func() (out []string) {
 		r := bytes.NewReader(wire)
 		for r.Len() > 0 {
@@ -829,10 +858,22 @@ func c19RunRspMsg(m c19RspMsg) (outcome string, fail *explore.Fail) {
 			case *dataFrame:
 				b := make([]byte, f.Length)
 				io.ReadFull(r, b)
-				out = append(out, fmt.Sprintf("DATA %q", b))
+				out = append(out, "DATA "+c19ShortData(b))
 			}
 		}
 		return out
+	}
+	// the fields of the i-th HEADERS frame, if the stream starts with i+1 of them
+	emittedAt := func(i int) (emitted []c19Field, ok bool) {
+		r := bytes.NewReader(wire)
+		for j := 0; j <= i; j++ {
+			b, _, bad := c19TryReadHeadersFrame(r)
+			if bad != "" {
+				return nil, false
+			}
+			emitted = c19DecodeAll(b)
+		}
+		return emitted, true
 	}
 	for i, sec := range sections {
 		res, err := rs.ReadResponse()
@@ -844,15 +885,11 @@ func c19RunRspMsg(m c19RspMsg) (outcome string, fail *explore.Fail) {
 		}
 		if err != nil {
 			// name the clause from what was really emitted
-			r := bytes.NewReader(wire)
-			var emitted []c19Field
-			for j := 0; j <= i; j++ {
-				b, _, ok := c19ReadHeadersFrame(r)
-				explore.Must(ok, "section %d missing", j)
-				emitted = c19DecodeAll(b)
-			}
+			emitted, isSection := emittedAt(i)
 			key := "output-rejected:" + c19ShortErr(err)
-			if cl := c19EmitClause(c19Rsp, emitted); cl != "" {
+			if !isSection {
+				key = "section-missing:" + c19ShortErr(err) // the stream does not carry a HEADERS frame where the message has a section
+			} else if cl := c19EmitClause(c19Rsp, emitted); cl != "" {
 				key = "emits-malformed:" + cl
 			} else if v := c19ViewOf(emitted); v.HasCL && c19ModelCL(v) < 0 {
 				key = "output-rejected:content-length-unrepresentable" // 1*DIGIT, but beyond int64
@@ -860,20 +897,15 @@ func c19RunRspMsg(m c19RspMsg) (outcome string, fail *explore.Fail) {
 			if sec.status < 200 {
 				key += "/1xx" // informational sections are serialised by another path (WriteHeader -> writeHeader at once)
 			}
-			return "", explore.Failf("writer-response/"+key,
+			return "", explore.Failf(pfx+"/"+key+at,
 				"the client rejects (%v, stream reset %v) the %d response section the response writer emitted for a valid message; on the wire: %v", err, cfake.cancelRead, sec.status, emittedAll())
 		}
 		{
 			// (accepted => well-formed) and (emitted => accepted) leave no room for a malformed accepted section
-			r := bytes.NewReader(wire)
-			var emitted []c19Field
-			for j := 0; j <= i; j++ {
-				b, _, ok := c19ReadHeadersFrame(r)
-				explore.Must(ok, "section %d missing", j)
-				emitted = c19DecodeAll(b)
-			}
+			emitted, isSection := emittedAt(i)
+			explore.Must(isSection, "section %d accepted but not found on the wire", i)
 			if cl := c19EmitClause(c19Rsp, emitted); cl != "" {
-				return "", explore.Failf("writer-response/emits-malformed-accepted:"+cl,
+				return "", explore.Failf(pfx+"/emits-malformed-accepted:"+cl+at,
 					"the response writer emits a %d section that violates %v and the client accepts it; on the wire: %v", sec.status, c19JudgeAll(c19Rsp, emitted), emittedAll())
 			}
 		}
@@ -890,8 +922,17 @@ func c19RunRspMsg(m c19RspMsg) (outcome string, fail *explore.Fail) {
 				view, ann, w = v2, a2, w2
 			}
 		}
+		later := false
 		if g != w {
-			return "", explore.Failf("writer-response/fields-differ:"+c19DiffTag(g, w),
+			for _, alt := range sec.alts {
+				if v2, a2, w2 := render(alt); g == w2 {
+					view, ann, w, later = v2, a2, w2, true
+					break
+				}
+			}
+		}
+		if g != w {
+			return "", explore.Failf(pfx+"/fields-differ:"+c19DiffTag(g, w)+at,
 				"parse(write(response)) differs from the message\n   got  %s\n   want %s\n   on the wire %v", c19Trunc(g), c19Trunc(w), emittedAll())
 		}
 		if i < len(sections)-1 {
@@ -901,20 +942,23 @@ func c19RunRspMsg(m c19RspMsg) (outcome string, fail *explore.Fail) {
 		skipBody := view.HasCL && c19ModelCL(view) != int64(len(wantBody)) // a Content-Length mismatch is another property's business
 		body, err := io.ReadAll(res.Body)
 		if err != nil && !skipBody {
-			return "", explore.Failf("writer-response/body-or-trailer-rejected:"+c19ShortErr(err),
+			return "", explore.Failf(pfx+"/body-or-trailer-rejected:"+c19ShortErr(err)+at,
 				"reading the response body / trailers fails: %v; on the wire %v", err, emittedAll())
 		}
 		if err == nil && !skipBody && string(body) != wantBody {
-			return "", explore.Failf("writer-response/body-differs", "body %q, want %q; on the wire %v", body, wantBody, emittedAll())
+			return "", explore.Failf(pfx+"/body-differs"+at, "body %s, want %s; on the wire %v", c19ShortData(body), c19ShortData([]byte(wantBody)), emittedAll())
 		}
 		if err == nil && sec.trailer != nil {
 			if g, w := c19RenderHeader(rsp.Trailer), c19RenderHeader(sec.trailer); g != w {
-				return "", explore.Failf("writer-response-trailers/fields-differ", "client sees trailers %s, the handler set %s; on the wire %v", g, w, emittedAll())
+				return "", explore.Failf(pfx+"-trailers/fields-differ"+at, "client sees trailers %s, the handler set %s; on the wire %v", g, w, emittedAll())
 			}
 		}
 		out := fmt.Sprintf("%s: round trip ok, %d", class, sec.status)
 		if len(sections) > 1 {
 			out += " after 103"
+		}
+		if later {
+			out += ", header as modified after WriteHeader"
 		}
 		if wantBody != "" {
 			out += ", body"
